@@ -8,6 +8,7 @@
   mass function and its CDF (integer powers), every guard and support branch.
 -/
 import LpModel.Basic
+import LpModel.Interp
 namespace Lp.C07
 
 inductive Err where
@@ -57,7 +58,17 @@ def invErf (T : Fn) (p : Rat) : Except Err Rat :=
   else .ok (T.invErf p)
 
 def quantileGauss (T : Fn) (p mu sigma : Rat) : Except Err Rat :=
-  (invErf T (2 * p - 1)).map (fun r => mu + T.sqrt 2 * sigma * r)
+  if sigma < 0 then .error .diag                 -- `fix:` d65f15f
+  else (invErf T (2 * p - 1)).map (fun r => mu + T.sqrt 2 * sigma * r)
+
+/-! ### the parameter guards of `fix:` d65f15f: the functions as coded are the guard followed by the formula above -/
+
+def pdfUniformE (x lo hi : Rat) : Except Err Rat := if lo ≥ hi then .error .diag else .ok (pdfUniform x lo hi)
+def cdfUniformE (x lo hi : Rat) : Except Err Rat := if lo ≥ hi then .error .diag else .ok (cdfUniform x lo hi)
+def pdfGaussE (T : Fn) (x mu sigma : Rat) : Except Err Rat := if sigma ≤ 0 then .error .diag else .ok (pdfGauss T x mu sigma)
+def cdfGaussE (T : Fn) (x mu sigma : Rat) : Except Err Rat := if sigma ≤ 0 then .error .diag else .ok (cdfGauss T x mu sigma)
+def pdfGauss2DE (T : Fn) (x y m1 m2 s1 s2 : Rat) : Except Err Rat :=
+  if s1 ≤ 0 ∨ s2 ≤ 0 then .error .diag else .ok (pdfGauss2D T x y m1 m2 s1 s2)
 
 /-! ## 1.3 Binomial — `binom n k` is `Binomial_Coefficient` (C06: `C(n,k)`, 0 for `n < k`) -/
 
@@ -131,6 +142,10 @@ def cdfChiSqProduct (T : Fn) (x dof : Rat) : Rat :=
   else if rabs dof < dofEps then 1
   else 1 / T.gamma (dof / 2) * lowerGamma T (x / 2) (dof / 2)
 
+/-- `fix:` d65f15f: a negative number of degrees of freedom is rejected -/
+def pdfChiSqE (T : Fn) (x dof : Rat) : Except Err Rat := if dof < 0 then .error .diag else .ok (pdfChiSq T x dof)
+def cdfChiSqE (T : Fn) (x dof : Rat) : Except Err Rat := if dof < 0 then .error .diag else .ok (cdfChiSq T x dof)
+
 /-- `for(dof = 1; dof < weights.size(); dof++) pdf += weights[dof] * PDF_Chi_Square(x, dof)` -/
 def pdfChiBar (T : Fn) (x : Rat) (w : List Rat) : Rat :=
   if x ≤ 0 then 0
@@ -162,15 +177,37 @@ def pdfMB (T : Fn) (x a : Rat) : Except Err Rat :=
   else if x < 0 then .ok 0
   else .ok (T.sqrt (2 / T.pi) * x * x / a / a / a * T.exp (-x * x / 2 / a / a))
 
+/-- the six-term series branch of `CDF_Maxwell_Boltzmann` for `t = x/a < 0.1`, as coded (Horner in `t2 = t*t`), `c = sqrt(2/π)` -/
+def mbSeries (c t : Rat) : Rat :=
+  let t2 := t * t
+  c * t * t2 * (1 / 3 + t2 * (-1 / 10 + t2 * (1 / 56 + t2 * (-1 / 432 + t2 * (1 / 4224 + t2 * (-1 / 49920))))))
+
 def cdfMB (T : Fn) (x a : Rat) : Except Err Rat :=
+  if a ≤ 0 then .error .diag
+  else if x < 0 then .ok 0
+  else
+    let t := x / a
+    if t < 1 / 10 then .ok (mbSeries (T.sqrt (2 / T.pi)) t)       -- `fix:` a8d8068
+    else .ok (T.erf (x / T.sqrt 2 / a) - T.sqrt (2 / T.pi) * x / a * T.exp (-x * x / 2 / a / a))
+
+/-- the closed form alone (before `fix:` a8d8068; it cancels for small `x/a`) -/
+def cdfMBClosed (T : Fn) (x a : Rat) : Except Err Rat :=
   if a ≤ 0 then .error .diag
   else if x < 0 then .ok 0
   else .ok (T.erf (x / T.sqrt 2 / a) - T.sqrt (2 / T.pi) * x / a * T.exp (-x * x / 2 / a / a))
 
 /-! ## 2. Likelihoods -/
 
+/-- after the guard: `if(N_observed == 0) return -(s+b);` (`fix:` 50e2a18), then the formula -/
 def logLikelihoodPoisson (T : Fn) (s : Rat) (n : Nat) (b : Rat) : Rat :=
-  (n : Rat) * T.log (s + b) - sumLog T 1 n - (s + b)
+  if n = 0 then -(s + b)
+  else (n : Rat) * T.log (s + b) - sumLog T 1 n - (s + b)
+
+/-- `Log_Likelihood_Poisson` as coded: negative expectations are rejected first (`fix:` d65f15f) -/
+def logLikelihoodPoissonE (T : Fn) (s : Rat) (n : Nat) (b : Rat) : Except Err Rat :=
+  if s < 0 ∨ b < 0 then .error .diag else .ok (logLikelihoodPoisson T s n b)
+
+def likelihoodPoissonE (T : Fn) (s : Rat) (n : Nat) (b : Rat) : Except Err Rat := (logLikelihoodPoissonE T s n b).map T.exp
 
 def likelihoodPoisson (T : Fn) (s : Rat) (n : Nat) (b : Rat) : Rat := T.exp (logLikelihoodPoisson T s n b)
 
@@ -180,8 +217,13 @@ def bins (s : List Rat) (n : List Nat) (b : List Rat) : Except Err (List (Rat ×
   if n.length ≠ s.length ∨ b.length ≠ s.length then .error .diag
   else .ok (s.zip (n.zip b))
 
+/-- the per-bin calls of `Log_Likelihood_Poisson` end the process at the first bin with a negative expectation -/
 def logLikelihoodBinned (T : Fn) (s : List Rat) (n : List Nat) (b : List Rat) : Except Err Rat :=
-  (bins s n b).map (fun l => l.foldl (fun acc t => acc + logLikelihoodPoisson T t.1 t.2.1 t.2.2) 0)
+  match bins s n b with
+  | .error e => .error e
+  | .ok l =>
+    if l.any (fun t => decide (t.1 < 0 ∨ t.2.2 < 0)) then .error .diag
+    else .ok (l.foldl (fun acc t => acc + logLikelihoodPoisson T t.1 t.2.1 t.2.2) 0)
 
 def likelihoodBinned (T : Fn) (s : List Rat) (n : List Nat) (b : List Rat) : Except Err Rat :=
   (logLikelihoodBinned T s n b).map T.exp
@@ -204,5 +246,9 @@ def kdeAt (T : Fn) (d : List (Rat × Rat)) (xMin bw wsum x : Rat) : Rat :=
       let wP := (w i + w (2 * i) + w (3 * i)) / 3
       acc + wP * gaussKernel T ((x - xP) / bw)
     else acc) 0) / (bw * wsum)
+
+/-- `norm = result.Integrate(xMin, xMax); result.Multiply(1.0 / norm);` (`fix:` f8bedae): the tabulated estimate is scaled by the
+    reciprocal of the exact integral of its own interpolation (C08) -/
+def kdeNormalise (o : Interp.Obj) (norm : Rat) : Interp.Obj := o.multiply (1 / norm)
 
 end Lp.C07
